@@ -979,6 +979,59 @@ func runSequence(id string, seq []string, parkStep int) runner.Result {
 	return res
 }
 
+// bufferedFlush: frames are still in the writer's buffer (manual flushing, or RawWrite) when the stream
+// is cancelled locally or by the peer; the flush that follows must report the cancellation's own error
+// ("Cancel ... all writes to the transport will return the provided error"), and nothing is emitted.
+func bufferedFlush(id string, how string, cause string) runner.Result {
+	var sink bytes.Buffer
+	wr := drpcwire.NewWriter(&sink, 1<<20)
+	st := drpcstream.NewWithOptions(context.Background(), streamID, wr, drpcstream.Options{ManualFlush: how == "manual-send"})
+	d := payload.Make(1, 0, 0, 1, 100)
+	var err error
+	if how == "manual-send" {
+		err = st.MsgSend(&d, payload.Enc{})
+	} else {
+		err = st.RawWrite(drpcwire.KindMessage, d)
+	}
+	if err != nil {
+		return runner.Inconcl(id, "setup write failed: "+err.Error())
+	}
+	var want error
+	switch cause {
+	case "Cancel":
+		st.Cancel(errCancel)
+		want = errCancel
+	case "remote-cancel":
+		if err := st.HandlePacket(drpcwire.Packet{ID: drpcwire.ID{Stream: streamID, Message: 1}, Kind: drpcwire.KindCancel, Control: true}); err != nil {
+			return runner.Inconcl(id, "HandlePacket failed: "+err.Error())
+		}
+		want = context.Canceled
+	case "SendCancel":
+		if _, err := st.SendCancel(context.DeadlineExceeded); err != nil {
+			return runner.Inconcl(id, "SendCancel failed: "+err.Error())
+		}
+		st.Cancel(context.DeadlineExceeded)
+		sink.Reset()
+		_ = st.RawWrite // the soft-cancel packet flushed what was buffered; buffer a new frame is impossible now
+		want = nil
+	}
+	before := sink.Len()
+	ferr := st.RawFlush()
+	var fails []string
+	if want != nil && !errors.Is(ferr, want) {
+		fails = append(fails, fmt.Sprintf("[%s %s RawFlush]: the flush of frames buffered before the cancellation returned %s, want the cancellation's error (%v)", how, cause, rig.ErrStr(ferr), want))
+	}
+	if sink.Len() != before {
+		fails = append(fails, fmt.Sprintf("[%s %s RawFlush]: %d bytes were emitted by a flush after the stream was cancelled", how, cause, sink.Len()-before))
+	}
+	if len(fails) > 0 {
+		return runner.Violation(id, "state-machine:flush-after-cancel", strings.Join(fails, "\n"))
+	}
+	res := runner.Hold(id, id, true)
+	res.Events = 3
+	return res
+}
+
 // failKey reduces a failure message to its kind (the part after the position).
 func failKey(s string) string {
 	if i := strings.Index(s, "]: "); i >= 0 {
@@ -1135,6 +1188,13 @@ func gen(tier string, seed uint64) []runner.Scenario {
 		}
 	}
 	recP(nil)
+	for _, how := range []string{"manual-send", "raw-write"} {
+		for _, cause := range []string{"Cancel", "remote-cancel", "SendCancel"} {
+			how, cause := how, cause
+			id := fmt.Sprintf("buffered-flush/%s/%s", how, cause)
+			out = append(out, runner.Scenario{ID: id, Run: func() runner.Result { return bufferedFlush(id, how, cause) }})
+		}
+	}
 	// seeded longer sequences
 	n := 2000
 	if tier == "thorough" {
